@@ -56,3 +56,47 @@ func TestC08_AckRemoval(t *testing.T) {
 		t.Errorf("tags written after message-tags was disabled: %q", l)
 	}
 }
+
+// Witness for the C08 finding tmpcap-not-pruned (patch:
+// notes/proposed-fixes/cap-tmpcap-prune.diff).  FAILS on the tree without the patch, passes
+// with it; named TestPendingC08_… so that `bin/check C08` does not run it while the defect is a
+// known finding — rename to TestC08_TmpCapPruned in the commit that applies the fix.
+func TestC08_TmpCapPruned(t *testing.T) {
+	// the last CAP REQ written for a scripted sequence of server lines; a PING fed after them
+	// goes through the same send queue, so its PONG marks the end of what they caused
+	reqAfter := func(lines ...string) string {
+		s := drive.Start(drive.BaseConfig())
+		defer s.Stop()
+		for _, l := range lines {
+			s.Feed(l)
+		}
+		s.Feed("PING :witness-done")
+		if _, ok := s.WaitLine(func(l string) bool { return strings.HasPrefix(l, "PONG ") && strings.Contains(l, "witness-done") }, 10*time.Second); !ok {
+			t.Fatal("no PONG")
+		}
+		last := "(no CAP REQ)"
+		for _, l := range s.Lines() {
+			if strings.HasPrefix(l, "CAP REQ ") {
+				last = strings.TrimRight(strings.TrimPrefix(strings.TrimPrefix(l, "CAP REQ "), ":"), "\r\n")
+			}
+		}
+		return last
+	}
+
+	// the server refused the first request as a whole; a later CAP NEW (cap-notify is implicit
+	// with CAP LS 302) must be answered on its own
+	if got := reqAfter("CAP * LS :multi-prefix message-tags", "CAP me NAK :multi-prefix message-tags", "CAP me NEW :batch"); got != "batch" {
+		t.Errorf("after a NAK, CAP NEW :batch was answered by CAP REQ :%s, want CAP REQ :batch", got)
+	}
+	// a capability withdrawn while it was pending is not requested
+	got := reqAfter("CAP * LS * :multi-prefix batch", "CAP me DEL :multi-prefix", "CAP * LS :away-notify")
+	toks := strings.Split(got, " ")
+	for _, tok := range toks {
+		if tok == "multi-prefix" {
+			t.Errorf("multi-prefix was requested (CAP REQ :%s) after CAP DEL :multi-prefix", got)
+		}
+	}
+	if len(toks) != 2 {
+		t.Errorf("CAP REQ :%s, want batch and away-notify", got)
+	}
+}
